@@ -158,7 +158,11 @@ def h08a(max_size: int, prefer: bool) -> bool:
         hit("toobig")
         return not prefer or S("cfg") >= 0  # TooBig is always an allowed outcome; with prefer it means even the fixed part does not fit
     hit("rendered")
-    limit = max_size if max_size >= 512 else 512
+    # documented effective limit: 0 = the request's payload (else 65535); clamped to 512..65535
+    limit = max_size
+    if limit == 0:
+        limit = m.request_payload if m.request_payload != 0 else 65535
+    limit = 512 if limit < 512 else (65535 if limit > 65535 else limit)
     return check_wire(m, wire, cfg, limit)
 
 
